@@ -33,7 +33,18 @@ def generate(rng, tier, n):
             s = cb.solve(m, rng.choice([0, 1, 3, 10]), 0.0, 1, rng.choice([None, "vanilla", "cfr_plus", "lcfr"]),
                          draws_for(rng, t, st))
         else:
-            s = cb.import_(random_named(rng, t, rng.choice(["zeros", "pure", "dirichlet", "tiny"])), fast=rng.random() < 0.5)
+            nm = random_named(rng, t, rng.choice(["zeros", "pure", "dirichlet", "tiny"]))
+            if rng.random() < 0.15:
+                # one infoset whose weights are all far down the binary64 range (subnormal total), or all near its top
+                ents = [e for pl_ in nm for e in pl_ if len(e[1]) >= 2]
+                if ents:
+                    e = rng.choice(ents)
+                    k = rng.choice([2.0 ** -1060, 1e-310, 2.0 ** -1030, 2.0 ** 1020])
+                    for ap in e[1]:
+                        w = b2f(ap[1])
+                        if 0.0 < w <= 1.0:
+                            ap[1] = f2b(w * k)
+            s = cb.import_(nm, fast=rng.random() < 0.5)
             if src_kind == "truncate":
                 s = cb.truncate(s, rng.choice([0.0, 0.1, 0.3, 0.5]))
         cb.meta["src"] = s
